@@ -398,7 +398,12 @@ func (e *Exec) stableStoreCheck(addr ssa.Value, st *State, pos token.Pos) {
 		return
 	}
 	base := e.val(fa.X).T
-	c.oblige("typeinv", fmt.Sprintf("typeinv.stable[%s]@b%d", key, e.curBlock.Index), st.pc, e.notAllocAtEntry(base),
+	cond := e.notAllocAtEntry(base)
+	if _, ok := c.compSort["$unpub"]; ok {
+		// or the object was handed in under requires unpublished(...)
+		cond = fmt.Sprintf("(or %s %s)", cond, c.hsel(st.heap, "$unpub", base))
+	}
+	c.oblige("typeinv", fmt.Sprintf("typeinv.stable[%s]@b%d", key, e.curBlock.Index), st.pc, cond,
 		"store to "+key+" (a field a type invariant depends on) only before the object is published", e.pos(pos))
 }
 
